@@ -690,11 +690,18 @@ Proof.
   now rewrite spec_w_fresh, IH.
 Qed.
 
-Lemma model_meets_spec i : spec_ok i (model i) = true.
+Lemma md_eqb_refl m : md_eqb m m = true.
+Proof. now apply md_eqb_eq. Qed.
+
+Lemma robs_same_refl r : robs_same r r = true.
 Proof.
-  destruct i as [c|c|b|c]; cbn [model spec_ok].
-  - destruct (size_ok (p_size c)) eqn:Hs; cbn [negb orb]; [|reflexivity].
-    unfold run_ptr. now apply spec_ptr_model.
+  destruct r; cbn [robs_same]; try reflexivity; rewrite ?Z.eqb_refl, md_eqb_refl; cbn [andb];
+    try reflexivity. now destruct eq.
+Qed.
+
+Lemma spec_rt_model c : spec_rt c (run_rt c) = true.
+Proof.
+  unfold spec_rt.
   - unfold run_rt. destruct (size_ok (r_size c)) eqn:Hs.
     2:{ destruct (negb (r_seg c) || (r_rows c =? 0) || (r_bufsize c <? r_thresh c)); [reflexivity|].
         destruct (r_alloc c) as [[off len]|]; [|reflexivity].
@@ -724,6 +731,14 @@ Proof.
     assert (M1 : md_eqb (strip_ptr (r_md c)) (strip_ptr (r_md c)) = true) by now apply md_eqb_eq.
     assert (M2 : md_eqb (resolved_md (r_md c) (r_name c)) (resolved_md (r_md c) (r_name c)) = true) by now apply md_eqb_eq.
     now rewrite M1, M2.
+Qed.
+
+Lemma model_meets_spec i : spec_ok i (model i) = true.
+Proof.
+  destruct i as [c|c|b|c]; cbn [model spec_ok].
+  - destruct (size_ok (p_size c)) eqn:Hs; cbn [negb orb]; [|reflexivity].
+    unfold run_ptr. rewrite spec_ptr_model by exact Hs. now rewrite md_eqb_refl, robs_same_refl.
+  - cbv zeta. now rewrite spec_rt_model, robs_same_refl.
   - reflexivity.
   - unfold run_hist. destruct (size_ok (h_size c)) eqn:Hs; cbn [negb orb]; [|reflexivity].
     destruct (key_sound_b (h_writes c)) eqn:Hk; cbn [negb orb]; [|reflexivity].
@@ -824,3 +839,17 @@ Lemma lossy_key_breaks :
   /\ spec_ok (IHist {| h_size := 131072; h_name := []; h_writes := lossy_pair |})
              (model (IHist {| h_size := 131072; h_name := []; h_writes := lossy_pair |})) = true.
 Proof. vm_compute. repeat split; congruence. Qed.
+
+(* ---- the pointer batch is an input: a filter that compacts its metadata in place destroys it ---- *)
+(* Go: keys := mKeys[:0]; append survivors; append source -- over the caller's backing arrays *)
+Definition inplace_after (md : meta) (name : bytes) : meta :=
+  let new := resolved_md md name in new ++ skipn (length new) md.
+Lemma inplace_breaks :
+  let md := [(c35_k_off, str "65536"); (c35_k_len, str "816"); (str "vgi_rpc.request_id", str "r")] in
+  is_ptr 0 md = true
+  /\ resolve true false 131072 (str "/seg") 0 md
+     = Read 65536 816 [(str "vgi_rpc.request_id", str "r"); (c35_k_source, str "/seg")]
+  /\ inplace_after md (str "/seg")
+     = [(str "vgi_rpc.request_id", str "r"); (c35_k_source, str "/seg"); (str "vgi_rpc.request_id", str "r")]
+  /\ resolve true false 131072 (str "/seg") 0 (inplace_after md (str "/seg")) = Unchanged.
+Proof. vm_compute. repeat split. Qed.
